@@ -55,11 +55,14 @@ type Policy struct {
 	HexBlank   bool    // blank between the UTF-16 units inside a target: <d83d dc4b>
 	FullHeader bool    // full Adobe boilerplate vs. the minimum
 	Grouped    bool    // all bfchar sections first, then all bfrange sections (else in code order)
+	// SectionOrder: "" sections in code order | "reverse" | "shuffle" — the sections
+	// of a CMap may come in any order (entries inside a section stay ascending)
+	SectionOrder string
 }
 
 func (p Policy) String() string {
 	return fmt.Sprintf("%s tight=%v upper=%v prange=%.2f parray=%.2f maxsec=%d abreak=%d hexblank=%v full=%v grouped=%v",
-		p.Layout, p.Tight, p.UpperHex, p.PRange, p.PArray, p.MaxSection, p.ArrayBreak, p.HexBlank, p.FullHeader, p.Grouped)
+		p.Layout, p.Tight, p.UpperHex, p.PRange, p.PArray, p.MaxSection, p.ArrayBreak, p.HexBlank, p.FullHeader, p.Grouped) + " sections=" + p.SectionOrder
 }
 
 // Stats says what the rendered program contains.
@@ -252,6 +255,8 @@ func Render(m *Map, p Policy, r *rand.Rand) ([]byte, Stats) {
 	w.line("endcodespacerange")
 
 	// 3. sections
+	secStart := w.sb.Len()
+	var segs []string
 	for i := 0; i < len(items); {
 		class := items[i].kind == "char"
 		max := 1 + r.Intn(p.MaxSection)
@@ -315,6 +320,28 @@ func Render(m *Map, p Policy, r *rand.Rand) ([]byte, Stats) {
 			}
 		}
 		i = j
+		segs = append(segs, w.sb.String()[secStart:])
+		secStart = w.sb.Len()
+	}
+	if p.SectionOrder != "" && len(segs) > 1 {
+		all := w.sb.String()
+		total := 0
+		for _, sg := range segs {
+			total += len(sg)
+		}
+		prefix := all[:len(all)-total]
+		if p.SectionOrder == "reverse" {
+			for a, b := 0, len(segs)-1; a < b; a, b = a+1, b-1 {
+				segs[a], segs[b] = segs[b], segs[a]
+			}
+		} else {
+			r.Shuffle(len(segs), func(a, b int) { segs[a], segs[b] = segs[b], segs[a] })
+		}
+		w.sb.Reset()
+		w.sb.WriteString(prefix)
+		for _, sg := range segs {
+			w.sb.WriteString(sg)
+		}
 	}
 
 	// 4. trailer
